@@ -103,7 +103,7 @@ def describe(o):
     if c["mode"] == "doc":
         what = "%s with %s" % (c["doc"], ", ".join("%s=%s" % (".".join(d["path"]) or "<document>", d["shape"]) for d in c["devs"]) or "no deviation")
     elif c["mode"] == "tokens":
-        what = "%s text %r" % (c["fam"], (o.get("input") or "")[:120])
+        what = "%s text %r" % (c["fam"], o["input"][:120]) if o.get("input") is not None and not o.get("crash") else "%s tokens %s" % (c["fam"], c["toks"])
     else:
         what = "%s store [%s]" % (c["drv"], ", ".join(r["damage"] for r in c["store"]))
     return what
@@ -171,8 +171,11 @@ def run(pid, tier, seed, replay=None):
     cases.sort(key=lambda c: json.dumps(c, sort_keys=True))
 
     obs, go_dt, gout = run_cases(d, hv, cases, P)
-    if len(obs) != len(cases):
+    not_run = len(cases) - len(obs)
+    if not_run and not any(o.get("hang") or o.get("crash") for o in obs):
         raise Inconclusive("harness observed %d of %d cases\n%s" % (len(obs), len(cases), gout[-2000:]))
+    if not_run:
+        log("C20: %d cases were not run: the workers stop after repeated hangs / crashes (the failures found are reported below)" % not_run)
     skipped = [o for o in obs if o.get("skip")]
     if skipped:
         raise Inconclusive("the harness could not build %d cases, e.g. %s: %s" % (len(skipped), describe(skipped[0]), skipped[0]["skip"][:300]))
@@ -221,7 +224,7 @@ def run(pid, tier, seed, replay=None):
                 "least one entry point accepted the input and at least one rejected it (the input got past the first parser)" % ("2" if tier == "thorough" else "1"),
         "samples": [dict(input=describe(o), text=(o.get("input") or "")[:200], entries=[(e["name"], e["out"]) for e in (o.get("entries") or [])[:6]])
                     for o in obs[:: max(1, len(obs) // 3)][:3]],
-        "states": dist, "transitions": gen, "cases": len(cases), "cases_per_family": per_mode,
+        "states": dist, "transitions": gen, "cases": len(cases), "cases_not_run_after_repeated_hangs_or_crashes": not_run, "cases_per_family": per_mode,
         "entry_points": sorted(entry_names), "calls_by_outcome": outs,
         "calls_excused_by_known_findings": known, "distinct_failures": len(order), "failure_kinds": kinds,
         "exhaustive_config": P["cfg"], "tlc_seconds": round(tlc_dt, 1), "replay_seconds": round(go_dt, 1),
